@@ -16,10 +16,7 @@ extern _Bool g_noabort;
 
 /* ---- models of library types (M-lock, M-atomic, M-vec, M-map; DESIGN 3.1) ---- */
 struct M_lock { char _unused; };                     /* sequential semantics: locks are no-ops */
-#ifndef M_VEC_CAP
-#define M_VEC_CAP 4
-#endif
-struct M_vec_voidp { unsigned long len; void *elem[M_VEC_CAP]; };   /* std::vector<void*> as bounded sequence view */
+struct M_vec_voidp { unsigned long len; void **elem; };   /* std::vector<void*> as a sequence view: elem[0..len) */
 struct M_map_str_voidp { int _opaque; };             /* std::map<std::string, void*>: only through map_* stubs */
 
 #endif
